@@ -52,6 +52,7 @@ CHECKS["C01"] = {
     "assumptions": ["the in-memory network delivers each byte exactly once in per-connection order", "only the client side opens streams"],
     "jobs": [
         {"pkg": MUX, "run": "^TestVerif_C01_SessionPair$", "checks": {"quick": 1500, "thorough": 200000}, "shards": {"thorough": 16}},
+        {"pkg": MUX, "run": "^TestVerif_C01_AddConnRace$", "checks": {"quick": 300, "thorough": 20000}, "shards": {"thorough": 8}},
         {"pkg": MUX, "run": "^TestVerif_C01_ManyStreams$", "checks": {"quick": 40, "thorough": 3000}, "shards": {"thorough": 16}},
     ],
 }
